@@ -465,6 +465,7 @@ impl GroupAggregator {
     pub fn update(&mut self, column_value: Value) -> ExecutionResult<Option<Value>> {
         match self {
             GroupAggregator::Sum(sum) => {
+                GroupAggregator::check_int_sum(sum, &column_value)?;
                 sum.modify_same_type_numeric_nullable(
                     &column_value,
                     |x, y| { *x += y },
@@ -476,6 +477,7 @@ impl GroupAggregator {
                 Ok(Some(sum))
             }
             GroupAggregator::Average { sum, count } => {
+                GroupAggregator::check_int_sum(sum, &column_value)?;
                 sum.modify_same_type_numeric_nullable(
                     &column_value,
                     |x, y| { *x += y },
@@ -493,6 +495,10 @@ impl GroupAggregator {
                 Ok(average)
             }
             GroupAggregator::StandardDeviation { sum, sum_square, count, is_variance } => {
+                if let Value::Int(x) = &column_value {
+                    x.checked_mul(*x).ok_or(ExecutionError::NumericOverflow)?;
+                }
+
                 let squared_column_value = column_value.map_numeric(
                     |x| Some(x * x),
                     |x| Some(x * x),
@@ -504,6 +510,9 @@ impl GroupAggregator {
                         }
                     }
                 ).unwrap_or(Value::Null);
+
+                GroupAggregator::check_int_sum(sum, &column_value)?;
+                GroupAggregator::check_int_sum(sum_square, &squared_column_value)?;
 
                 sum.modify_same_type_numeric_nullable(
                     &column_value,
@@ -578,6 +587,15 @@ impl GroupAggregator {
                 Ok(Some(Value::Bool(values.insert(column_value))))
             }
         }
+    }
+
+    // Running INT sums report an error instead of panicking or wrapping on overflow
+    fn check_int_sum(sum: &Value, value: &Value) -> ExecutionResult<()> {
+        if let (Value::Int(x), Value::Int(y)) = (sum, value) {
+            x.checked_add(*y).ok_or(ExecutionError::NumericOverflow)?;
+        }
+
+        Ok(())
     }
 
     pub fn update_value(&mut self) -> ExecutionResult<Option<Value>> {
